@@ -208,6 +208,9 @@ static void runGapMin(Rng & rng, const Inst & I, const PModel & m, const std::st
     // precisionDigits drives the tolerance of the inner PBVI/FIB runs (threshold*(1-discount)/2): 2 digits at discount 15/16 already costs
     // minutes per iteration under the sanitizers, so quick uses 1 digit and thorough at most 2
     unsigned digits = (unsigned)rng.range(1, tier == "thorough" ? 2 : 1);
+    // the hand-made instances (corner / face initial beliefs, moderate discounts) are cheap enough for 2-3 digits: several rounds of
+    // point selection + belief-POMDP construction (LPInterpolation weights of points with different supports)
+    if (I.shape.rfind("fixed_", 0) == 0 && I.t.discount <= 0.875) { digits = I.t.discount <= 0.75 ? 3 : 2; tol = 0.01; }
     Obs ob{&I, "GapMin", tier == "thorough" ? 30u : 12u};
     AIToolbox::Verif::anytimeObserver = std::ref(ob);
     std::printf("#in GapMin tol=%g digits=%u shape=%s\n", tol, digits, I.shape.c_str()); std::fflush(stdout);
